@@ -228,9 +228,11 @@ func runTransmitFault(e *rsync.Engine, root string, c c20case) (string, bool) {
 	for _, tr := range enc.got {
 		if tr.Done {
 			done = true
+			// An in-band Done.Error is how NON-transmission (engine) errors are relayed; it
+			// does not excuse a failed transmission: the real receiver finalizes the
+			// (truncated) file all the same, so the sender must still return an error.
 			if tr.Error != "" {
-				// An error was reported in-band to the receiver: that is a report.
-				return "", true
+				done = false
 			}
 			continue
 		}
